@@ -454,7 +454,7 @@ func optsGen(g *G, tier string) []M {
 					if g.Chance(0.5) {
 						cell = []any{[]any{"Indent", strconv.Itoa(g.Pick2([]int{0, 0, 1, 3, 5}))}}
 					}
-					st := M{"s": "call", "i": float64(i), "k": 0.0, "f": g.Pick([]string{"", string(formats.SPDX23JSON), string(formats.CDX15JSON)}), "cell": cell}
+					st := M{"s": "call", "i": float64(i), "k": 0.0, "f": g.Pick([]string{"", string(formats.SPDX23JSON), string(formats.CDX15JSON), "verif/none"}), "cell": cell}
 					if g.Chance(0.5) {
 						// format options of the call only
 						st["fo"] = []any{[]any{g.Pick(optKeys[:2]), g.Pick([]string{"call1", "call2"})}}
@@ -497,8 +497,8 @@ func optsCanon(v any) any {
 		}
 		if e, ok := sm["eff"].(M); ok {
 			f := asStr(e["format"])
-			if f == "" {
-				// no format on the call nor on the instance: the write is refused
+			if f == "" || f == "verif/none" {
+				// no format on the call nor on the instance, or one nothing is registered for: refused
 				e["format"] = "err"
 				f = "err"
 			}
@@ -561,6 +561,47 @@ func oracleOpts(op M, res any, exec func(M) any) []Finding {
 			if got, want := cellGet(e["cell"], "Indent", "?"), cellGet(sm["cell"], "Indent", "0"); got != want {
 				out = append(out, Finding{"C18", fmt.Sprintf("step %d: the call asked for indent %s, the output is indented by %s: the options of the call did not override the writer's", si, want, got)})
 			}
+		}
+	}
+	// every write comes out in the format of the call, else in the format the instance reports
+	for si := 0; si < len(steps) && si < len(rl); si++ {
+		sm, _ := steps[si].(M)
+		b, _ := rl[si].(M)
+		if sm == nil || b == nil || asStr(sm["s"]) != "call" || asStr(op["kind"]) != "writer" {
+			continue
+		}
+		i := int(asInt(sm["i"]))
+		cfgs := asList(b["cfgs"])
+		e, ok := b["eff"].(M)
+		if !ok || i >= len(cfgs) {
+			continue
+		}
+		want := asStr(sm["f"])
+		if want == "" {
+			if cm, ok := cfgs[i].(M); ok {
+				want = asStr(cm["format"])
+			}
+		}
+		if want == "" || want == "verif/none" {
+			want = "err"
+		}
+		got := asStr(e["format"])
+		if got == "" {
+			got = "err"
+		}
+		if got != want {
+			out = append(out, Finding{"C18", fmt.Sprintf("step %d: the write came out as %s; the call named %q and instance %d reports format %q", si, got, asStr(sm["f"]), i, want)})
+		}
+	}
+	// the format of a call overrides the writer's for that call: one that nothing is registered for is refused
+	for si := 0; si < len(steps) && si < len(rl); si++ {
+		sm, _ := steps[si].(M)
+		b, _ := rl[si].(M)
+		if sm == nil || b == nil || asStr(sm["s"]) != "call" || asStr(op["kind"]) != "writer" || asStr(sm["f"]) != "verif/none" {
+			continue
+		}
+		if e, ok := b["eff"].(M); ok && asStr(e["format"]) != "err" {
+			out = append(out, Finding{"C18", fmt.Sprintf("step %d: the call named a format without a serializer, yet it succeeded and wrote %s: the writer's own format leaked into the call", si, asStr(e["format"]))})
 		}
 	}
 	// ... and the format options of a call override the reader's: the driver receives the call's
